@@ -21,6 +21,8 @@ def run(ctx):
     rule_T3(ctx)
     rule_T4(ctx)
     rule_A2_A6(ctx)
+    from ..initrules import rule_I1
+    rule_I1(ctx, {'counter', 'rows'})
     rule_P4_sampler_subset(ctx, ('points', 'log_l', 'blobs', 'shell_t', 'bound', 'pop_shell', 'add_bound', 'first-batch',
                             'update-shell', 'batch-checkpointed', 'optional-init') + ('shell_', '_discard_exploration', 'explored', 'discard_explora'),
                            'the stored rows, the exploration boundary and the discard flag')
